@@ -142,6 +142,10 @@ impl File {
     #[verifier::external_body]
     fn sync_all(&self) -> (r: Result<(), IoError>) { unimplemented!() }
     #[verifier::external_body]
+    fn metadata(&self) -> (r: Result<Metadata, IoError>)
+        ensures r matches Ok(m) ==> m.len_spec() == self.content().len(),
+    { unimplemented!() }
+    #[verifier::external_body]
     fn set_len(&mut self, size: u64) -> (r: Result<(), IoError>)
         requires forall|n: int| 0 <= n <= old(self).content().len() ==> point_state(#[trigger] old(self).content().subrange(0, n)),
     { unimplemented!() }
